@@ -135,7 +135,9 @@ func (o Options) fromBytesCheckEnd(data []byte, checkEndOption bool) error {
 
 		// N bytes: option data
 		data := buf.Consume(length)
-		if data == nil {
+		// buf.Error() also covers a missing length byte: Read8 then
+		// returned 0 and Consume(0) succeeds on an exhausted buffer.
+		if data == nil || buf.Error() != nil {
 			return fmt.Errorf("error collecting options: %v", buf.Error())
 		}
 		data = data[:length:length]
